@@ -623,7 +623,7 @@ def one(args):
 class ConfigLayer:
     name = 'config'
 
-    def __init__(self, quick=(16, 150), thorough=(64, 400)):
+    def __init__(self, quick=(16, 150), thorough=(256, 400)):
         self.quick = quick; self.thorough = thorough
 
     def build(self):
